@@ -236,6 +236,25 @@ func structuralEdits(b *gen.Built, res *ref.XZResult) []edit {
 			}
 		}
 	}
+	// block header declared longer than written: size byte raised by k, 4k
+	// zero bytes of (legal) header padding inserted before the CRC32, CRC32
+	// re-computed - the index, left alone, no longer matches the block
+	{
+		szs, crcs := lay.Find("bh_size"), lay.Find("bh_crc")
+		for i := 0; i < len(szs) && i < len(crcs) && i < 2; i++ {
+			for _, k := range []int{1, 3} {
+				if int(b.Stream[szs[i].Off])+k > 255 {
+					continue
+				}
+				d := append([]byte{}, b.Stream[:crcs[i].Off]...)
+				d = append(d, make([]byte, 4*k)...)
+				d[szs[i].Off] += byte(k)
+				d = binary.LittleEndian.AppendUint32(d, crc32.ChecksumIEEE(d[szs[i].Off:]))
+				d = append(d, b.Stream[crcs[i].Off+4:]...)
+				add("header_lengthened", "bh_size", d)
+			}
+		}
+	}
 	// index: record count, records, padding
 	cnt := lay.Find("idx_count")[0]
 	for _, dlt := range []int{-1, 1} {
@@ -545,6 +564,14 @@ func checkC04(c caseC04, rec *ev.Rec) *ev.Failure {
 			}
 			for _, d := range []uint64{1, 3, 4, 128} {
 				lies = append(lies, gen.Lie{F: "rec_unpadded", Blk: i, V: uint64(st.Blocks[i].Unpadded) + d}, gen.Lie{F: "rec_usize", Blk: i, V: us + d})
+			}
+			for _, d := range []uint64{1, 4, 8, 12} {
+				if uint64(st.Blocks[i].Unpadded) > d+4 {
+					lies = append(lies, gen.Lie{F: "rec_unpadded", Blk: i, V: uint64(st.Blocks[i].Unpadded) - d})
+				}
+				if us > d {
+					lies = append(lies, gen.Lie{F: "rec_usize", Blk: i, V: us - d})
+				}
 			}
 		}
 		n := uint64(len(st.Blocks))
